@@ -183,6 +183,13 @@ def run(spec, ctx):
     if spec.get('layer_subset'):
         lopt = dict(ropt, layer=spec['layer_subset'])
         sub, Tsub = ex(lopt, 'layer-subset')
+        want_layers = set(m.select(lopt))
+        ran_layers = set(flat(orders(m, Tsub)))
+        if not (sub.raised or sub.hang) and ran_layers - want_layers:
+            viols.append(C.viol('C11/tests-of-unselected-layer-ran',
+                                'with --layer %r the layers %r ran, selected are %r'
+                                % (spec['layer_subset'], sorted(ran_layers),
+                                   sorted(want_layers))))
         for l, order in flat(orders(m, Tsub)).items():
             if os_.get(l) != order:
                 viols.append(C.viol('C11/layer-filter-changes-order',
